@@ -21,6 +21,7 @@ DEFAULT_PROFILE = {
     "p_delayed": 0.15,
     "p_work": 0.2,
     "p_cost": 0.3,
+    "p_poly": 0.0,
     "n_buffers": (0, 0),
     "constraints": [],        # list of kinds to draw from
     "n_constraints": (0, 2),
@@ -133,12 +134,12 @@ class Gen:
                 w["productivity"] = rng.choice([0, 1, 2, 3])
             if rng.random() < p["p_cost"]:
                 r = rng.random()
-                if r < 0.5:
-                    w["cost"] = {"const": rng.choice([0, 1, 2, 3, 5])}
-                elif r < 0.85:
-                    w["cost"] = {"linear": [rng.choice([0, 1, 2, 3]), rng.choice([0, 1, 2, 4])]}
-                else:
+                if r < p["p_poly"]:
                     w["cost"] = {"poly": [rng.choice([1, 2]), rng.choice([0, 1, 3]), rng.choice([0, 2])]}
+                elif r < 0.55:
+                    w["cost"] = {"const": rng.choice([0, 1, 2, 3, 5])}
+                else:
+                    w["cost"] = {"linear": [rng.choice([0, 1, 2, 3]), rng.choice([0, 1, 2, 4])]}
             spec["workers"].append(w)
         if rng.random() < p["p_cumulative"]:
             c = {"id": "cw1", "size": rng.choice([2, 2, 3])}
@@ -555,6 +556,28 @@ class Gen:
             o["indicator"] = rng.choice(cands)["id"]
             o["weight"] = rng.choice([1, 1, 2, 3])
         return o
+
+
+def has_nonlinear(spec):
+    """does the encoding of this spec leave linear integer arithmetic?  (non-constant cost
+    functions integrated over variable spans; utilisation divided by a variable horizon;
+    periodic constraints use mod/div by constants only, which stays linear)"""
+    costly = set()
+    for w in spec.get("workers", []):
+        c = w.get("cost")
+        if c and ("poly" in c or ("linear" in c and c["linear"][0] != 0)):
+            costly.add(w["id"])
+    for i in spec.get("indicators", []):
+        if i["kind"] == "ResourceCost" and costly & set(i["resources"]):
+            return True
+        if i["kind"] == "ResourceUtilization" and spec.get("horizon") is None:
+            return True
+    for o in spec.get("objectives", []):
+        if o["kind"] == "MinimizeResourceCost" and costly & set(o["resources"]):
+            return True
+        if o["kind"] == "MaximizeResourceUtilization" and spec.get("horizon") is None:
+            return True
+    return False
 
 
 def gen_spec(rng, prof):
